@@ -148,10 +148,12 @@ enum Fn {
     F_BIT_TEMPLATE, F_IPOW_TEMPLATE,
     // popcount evaluated in a constant expression (takes the portable fallback instead of the builtin)
     F_POPCOUNT_CONSTEXPR,
+    // every function evaluated in a constant initialiser (tables below), compared with the run-time result and std
+    F_CONSTANT_EVALUATED,
     F_COUNT
 };
 char const* const FN[F_COUNT] = {"popcount", "countl_zero", "countl_one", "countr_zero", "countr_one", "bit_width", "bit_ceil", "bit_floor", "has_single_bit", "byteswap", "abs", "ilog2", "hton_ntoh", "rotl", "rotr", "set_bit",
-    "set_bit_value", "reset_bit", "flip_bit", "test_bit", "add_sat", "div_sat", "midpoint", "gcd", "lcm", "idiv", "ipow", "cmp", "in_range", "saturate_cast", "gcd_mixed", "lcm_mixed", "bit_template", "ipow_template", "popcount_constexpr"};
+    "set_bit_value", "reset_bit", "flip_bit", "test_bit", "add_sat", "div_sat", "midpoint", "gcd", "lcm", "idiv", "ipow", "cmp", "in_range", "saturate_cast", "gcd_mixed", "lcm_mixed", "bit_template", "ipow_template", "popcount_constexpr", "constant_evaluated"};
 constexpr Fn UNARY_FIRST = F_POPCOUNT, UNARY_LAST = F_HTON;
 constexpr Fn BINARY_FIRST = F_ADD_SAT, BINARY_LAST = F_IPOW;
 
@@ -1136,6 +1138,304 @@ void popcount_constexpr(vf::Ctx& c, std::uint64_t& work)
     popcount_constexpr_one(i64v, o64);
 }
 
+// ------------------------------------------------------------------------------------------------ constant-evaluated leg
+// Several functions choose between a compiler builtin (run time) and a portable fallback (`is_constant_evaluated()`).
+// Everything above feeds run-time data, i.e. the builtin branch.  Here every function is ALSO evaluated inside the
+// constant initialiser of a table (per function and per type, all ten distinct integer types), over boundary values
+// (0, 1, 2^k, 2^k +- 1, ~2^k, sparse / dense patterns, min, max; mixed-sign pairs for the binary functions).  At run
+// time each table entry is compared with the run-time result of the same call (volatile arguments) and with the std
+// function where one exists.  The tables are `const` objects of static storage duration, not `constexpr`: if an
+// evaluation is not a constant expression the initialisation silently happens at run time instead, the table records
+// that (`constant_evaluated == false`) and it is reported as a failure of a case, not as a build error.
+enum CeFn {
+    CE_POPCOUNT, CE_COUNTL_ZERO, CE_COUNTL_ONE, CE_COUNTR_ZERO, CE_COUNTR_ONE, CE_BIT_WIDTH, CE_BIT_CEIL, CE_BIT_FLOOR, CE_HAS_SINGLE_BIT, CE_BYTESWAP, CE_ABS,
+    CE_SATURATE_I8, CE_SATURATE_U8, CE_SATURATE_I32, CE_SATURATE_U64,
+    CE_ADD_SAT, CE_DIV_SAT, CE_MIDPOINT, CE_GCD, CE_LCM, CE_ROTL, CE_ROTR, CE_SET_BIT, CE_SET_BIT_TRUE, CE_SET_BIT_FALSE, CE_RESET_BIT, CE_FLIP_BIT, CE_TEST_BIT,
+    CE_COUNT
+};
+constexpr int CE_FIRST_BINARY = CE_ADD_SAT;
+char const* const CE_NAME[CE_COUNT] = {"popcount", "countl_zero", "countl_one", "countr_zero", "countr_one", "bit_width", "bit_ceil", "bit_floor", "has_single_bit", "byteswap", "abs", "saturate_cast<i8>", "saturate_cast<u8>",
+    "saturate_cast<i32>", "saturate_cast<u64>", "add_sat", "div_sat", "midpoint", "gcd", "lcm", "rotl", "rotr", "set_bit", "set_bit_true", "set_bit_false", "reset_bit", "flip_bit", "test_bit"};
+
+struct CeRes {
+    bool dom;
+    u64 val;
+};
+template <typename T>
+constexpr auto ce_bits(T v) -> u64 { return std::is_signed_v<T> ? static_cast<u64>(static_cast<i64>(v)) : static_cast<u64>(v); }
+
+// one call; the same function body is used for the constant-evaluated table and for the run-time comparison
+template <typename T, int F>
+constexpr auto ce_apply(T a, T b) -> CeRes
+{
+    constexpr int N     = static_cast<int>(sizeof(T) * 8);
+    constexpr bool is_u = std::is_unsigned_v<T>;
+    using UT            = std::make_unsigned_t<T>;
+    [[maybe_unused]] i128 const A = static_cast<i128>(a);
+    [[maybe_unused]] i128 const B = static_cast<i128>(b);
+    if constexpr (F <= CE_HAS_SINGLE_BIT) {
+        if constexpr (is_u) {
+            if constexpr (F == CE_POPCOUNT) { return {true, static_cast<u64>(etl::popcount(a))}; }
+            if constexpr (F == CE_COUNTL_ZERO) { return {true, static_cast<u64>(etl::countl_zero(a))}; }
+            if constexpr (F == CE_COUNTL_ONE) { return {true, static_cast<u64>(etl::countl_one(a))}; }
+            if constexpr (F == CE_COUNTR_ZERO) { return {true, static_cast<u64>(etl::countr_zero(a))}; }
+            if constexpr (F == CE_COUNTR_ONE) { return {true, static_cast<u64>(etl::countr_one(a))}; }
+            if constexpr (F == CE_BIT_WIDTH) { return {true, static_cast<u64>(etl::bit_width(a))}; }
+            if constexpr (F == CE_BIT_CEIL) {
+                if (static_cast<u64>(a) > (u64{1} << (N - 1))) { return {false, 0}; }
+                return {true, static_cast<u64>(etl::bit_ceil(a))};
+            }
+            if constexpr (F == CE_BIT_FLOOR) { return {true, static_cast<u64>(etl::bit_floor(a))}; }
+            if constexpr (F == CE_HAS_SINGLE_BIT) { return {true, static_cast<u64>(etl::has_single_bit(a))}; }
+        }
+        return {false, 0};
+    } else if constexpr (F == CE_BYTESWAP) {
+        return {true, ce_bits(etl::byteswap(a))};
+    } else if constexpr (F == CE_ABS) {
+        if constexpr (!is_u) {
+            if (a == std::numeric_limits<T>::min()) { return {false, 0}; }
+            return {true, ce_bits(etl::abs(a))};
+        }
+        return {false, 0};
+    } else if constexpr (F == CE_SATURATE_I8) {
+        return {true, ce_bits(etl::saturate_cast<i8>(a))};
+    } else if constexpr (F == CE_SATURATE_U8) {
+        return {true, ce_bits(etl::saturate_cast<u8>(a))};
+    } else if constexpr (F == CE_SATURATE_I32) {
+        return {true, ce_bits(etl::saturate_cast<i32>(a))};
+    } else if constexpr (F == CE_SATURATE_U64) {
+        return {true, ce_bits(etl::saturate_cast<u64>(a))};
+    } else if constexpr (F == CE_ADD_SAT) {
+        return {true, ce_bits(etl::add_sat(a, b))};
+    } else if constexpr (F == CE_DIV_SAT) {
+        if (b == 0) { return {false, 0}; }
+        return {true, ce_bits(etl::div_sat(a, b))};
+    } else if constexpr (F == CE_MIDPOINT) {
+        return {true, ce_bits(etl::midpoint(a, b))};
+    } else if constexpr (F == CE_GCD || F == CE_LCM) {
+        if (!is_u && (a == std::numeric_limits<T>::min() || b == std::numeric_limits<T>::min())) { return {false, 0}; }
+        if constexpr (F == CE_GCD) {
+            return {true, ce_bits(etl::gcd(a, b))};
+        } else {
+            i128 x = 0;
+            if (!lcm_in<T>(A, B, x)) { return {false, 0}; }
+            return {true, ce_bits(etl::lcm(a, b))};
+        }
+    } else if constexpr (F == CE_ROTL || F == CE_ROTR) {
+        if constexpr (is_u) {
+            int const s = static_cast<int>(static_cast<u64>(b) % 131U) * ((static_cast<u64>(a) & 1U) != 0 ? -1 : 1);
+            return {true, static_cast<u64>(F == CE_ROTL ? etl::rotl(a, s) : etl::rotr(a, s))};
+        }
+        return {false, 0};
+    } else {
+        if constexpr (is_u) {
+            T const pos = static_cast<T>(static_cast<UT>(static_cast<u64>(b) % static_cast<unsigned>(N)));
+            if constexpr (F == CE_SET_BIT) { return {true, static_cast<u64>(etl::set_bit(a, pos))}; }
+            if constexpr (F == CE_SET_BIT_TRUE) { return {true, static_cast<u64>(etl::set_bit(a, pos, true))}; }
+            if constexpr (F == CE_SET_BIT_FALSE) { return {true, static_cast<u64>(etl::set_bit(a, pos, false))}; }
+            if constexpr (F == CE_RESET_BIT) { return {true, static_cast<u64>(etl::reset_bit(a, pos))}; }
+            if constexpr (F == CE_FLIP_BIT) { return {true, static_cast<u64>(etl::flip_bit(a, pos))}; }
+            if constexpr (F == CE_TEST_BIT) { return {true, static_cast<u64>(etl::test_bit(a, pos))}; }
+        }
+        return {false, 0};
+    }
+}
+// the std counterpart, where libstdc++ 12 has one
+template <typename T, int F>
+auto ce_std(T a, T b, bool& has) -> u64
+{
+    has = true;
+    if constexpr (std::is_unsigned_v<T>) {
+        if constexpr (F == CE_POPCOUNT) { return static_cast<u64>(std::popcount(a)); }
+        if constexpr (F == CE_COUNTL_ZERO) { return static_cast<u64>(std::countl_zero(a)); }
+        if constexpr (F == CE_COUNTL_ONE) { return static_cast<u64>(std::countl_one(a)); }
+        if constexpr (F == CE_COUNTR_ZERO) { return static_cast<u64>(std::countr_zero(a)); }
+        if constexpr (F == CE_COUNTR_ONE) { return static_cast<u64>(std::countr_one(a)); }
+        if constexpr (F == CE_BIT_WIDTH) { return static_cast<u64>(std::bit_width(a)); }
+        if constexpr (F == CE_BIT_CEIL) { return static_cast<u64>(std::bit_ceil(a)); }
+        if constexpr (F == CE_BIT_FLOOR) { return static_cast<u64>(std::bit_floor(a)); }
+        if constexpr (F == CE_HAS_SINGLE_BIT) { return static_cast<u64>(std::has_single_bit(a)); }
+        if constexpr (F == CE_ROTL || F == CE_ROTR) {
+            int const s = static_cast<int>(static_cast<u64>(b) % 131U) * ((static_cast<u64>(a) & 1U) != 0 ? -1 : 1);
+            return static_cast<u64>(F == CE_ROTL ? std::rotl(a, s) : std::rotr(a, s));
+        }
+    }
+    if constexpr (F == CE_MIDPOINT) { return ce_bits(std::midpoint(a, b)); }
+    if constexpr (F == CE_GCD) { return ce_bits(std::gcd(a, b)); }
+    if constexpr (F == CE_LCM) { return ce_bits(std::lcm(a, b)); }
+    if constexpr (F == CE_ADD_SAT) { return ce_bits(clampT<T>(static_cast<i128>(a) + static_cast<i128>(b))); }
+    if constexpr (F == CE_DIV_SAT) { return ce_bits(clampT<T>(static_cast<i128>(a) / static_cast<i128>(b))); }
+    if constexpr (F == CE_SATURATE_I8) { return ce_bits(clampT<i8>(static_cast<i128>(a))); }
+    if constexpr (F == CE_SATURATE_U8) { return ce_bits(clampT<u8>(static_cast<i128>(a))); }
+    if constexpr (F == CE_SATURATE_I32) { return ce_bits(clampT<i32>(static_cast<i128>(a))); }
+    if constexpr (F == CE_SATURATE_U64) { return ce_bits(clampT<u64>(static_cast<i128>(a))); }
+    if constexpr (F == CE_ABS) { return ce_bits(static_cast<T>(a < 0 ? -a : a)); }
+    has = false;
+    return 0;
+}
+
+template <typename T>
+inline constexpr int CE_NV1 = static_cast<int>(sizeof(T) * 8 * 4 + 10);
+constexpr int CE_NV2 = 22;
+template <typename T>
+constexpr auto ce_vals1() -> std::array<T, static_cast<std::size_t>(CE_NV1<T>)>
+{
+    using UT        = std::make_unsigned_t<T>;
+    constexpr int N = static_cast<int>(sizeof(T) * 8);
+    std::array<T, static_cast<std::size_t>(CE_NV1<T>)> v{};
+    std::size_t n = 0;
+    for (int k = 0; k < N; ++k) {
+        UT const bit = static_cast<UT>(UT{1} << k);
+        v[n++]       = static_cast<T>(bit);
+        v[n++]       = static_cast<T>(static_cast<UT>(bit - 1));
+        v[n++]       = static_cast<T>(static_cast<UT>(bit + 1));
+        v[n++]       = static_cast<T>(static_cast<UT>(~bit));
+    }
+    UT const top = static_cast<UT>(UT{1} << (N - 1));
+    v[n++]       = T{0};
+    v[n++]       = std::numeric_limits<T>::max();
+    v[n++]       = std::numeric_limits<T>::min();
+    v[n++]       = static_cast<T>(static_cast<UT>(0x5555555555555555ULL));
+    v[n++]       = static_cast<T>(static_cast<UT>(0xAAAAAAAAAAAAAAAAULL));
+    v[n++]       = static_cast<T>(static_cast<UT>(top | 1U));
+    v[n++]       = static_cast<T>(static_cast<UT>(top | static_cast<UT>(UT{1} << (N / 2))));
+    v[n++]       = static_cast<T>(static_cast<UT>(0x0F0F0F0F0F0F0F0FULL));
+    v[n++]       = static_cast<T>(static_cast<UT>(static_cast<UT>(UT{1} << (N / 2)) | 1U));
+    v[n++]       = static_cast<T>(static_cast<UT>(0x0123456789ABCDEFULL));
+    return v;
+}
+template <typename T>
+constexpr auto ce_vals2() -> std::array<T, CE_NV2>
+{
+    using UT        = std::make_unsigned_t<T>;
+    constexpr int N = static_cast<int>(sizeof(T) * 8);
+    auto neg        = [](unsigned x) { return static_cast<T>(static_cast<UT>(UT{0} - static_cast<UT>(x))); }; // -x (wraps for unsigned)
+    return {T{0}, T{1}, T{2}, T{3}, T{5}, T{6}, T{7}, T{10}, T{12}, neg(1), neg(2), neg(5), neg(10), std::numeric_limits<T>::max(), std::numeric_limits<T>::min(), static_cast<T>(std::numeric_limits<T>::max() - 1),
+        static_cast<T>(std::numeric_limits<T>::min() + 1), static_cast<T>(static_cast<UT>(UT{1} << (N / 2))), static_cast<T>(static_cast<UT>(static_cast<UT>(UT{1} << (N / 2)) - 1)), static_cast<T>(static_cast<UT>(UT{1} << (N - 2))),
+        static_cast<T>(static_cast<UT>(0x5555555555555555ULL)), static_cast<T>(static_cast<UT>(static_cast<UT>(UT{1} << (N - 1)) | 1U))};
+}
+template <typename T, int F>
+struct CeTab {
+    static constexpr std::size_t n = F < CE_FIRST_BINARY ? static_cast<std::size_t>(CE_NV1<T>) : static_cast<std::size_t>(CE_NV2 * CE_NV2);
+    bool constant_evaluated;
+    std::array<u64, n> val;
+    std::array<bool, n> dom;
+};
+template <typename T, int F>
+constexpr auto ce_arg(std::size_t i, T& a, T& b) -> void
+{
+    if constexpr (F < CE_FIRST_BINARY) {
+        a = ce_vals1<T>()[i];
+        b = T{0};
+    } else {
+        a = ce_vals2<T>()[i / CE_NV2];
+        b = ce_vals2<T>()[i % CE_NV2];
+    }
+}
+template <typename T, int F>
+constexpr auto ce_make() -> CeTab<T, F>
+{
+    CeTab<T, F> t{};
+    t.constant_evaluated = std::is_constant_evaluated();
+    auto const v1        = ce_vals1<T>();
+    auto const v2        = ce_vals2<T>();
+    for (std::size_t i = 0; i < CeTab<T, F>::n; ++i) {
+        T const a     = F < CE_FIRST_BINARY ? v1[i] : v2[i / CE_NV2];
+        T const b     = F < CE_FIRST_BINARY ? T{0} : v2[i % CE_NV2];
+        CeRes const r = ce_apply<T, F>(a, b);
+        t.val[i]      = r.val;
+        t.dom[i]      = r.dom;
+    }
+    return t;
+}
+// static storage duration, constant initialisation is attempted first (see the comment at the top of this section)
+template <typename T, int F>
+inline CeTab<T, F> const ce_table = ce_make<T, F>();
+
+// type-erased view of one table, so that the comparison loop and the messages are compiled once
+struct CeDesc {
+    char const* type;
+    char const* fname;
+    bool is_signed, binary, constant_evaluated;
+    std::size_t n;
+    u64 const* val;
+    bool const* dom;
+    void (*arg)(std::size_t, u64&, u64&);
+    CeRes (*apply)(u64, u64);        // the same call at run time
+    u64 (*ref)(u64, u64, bool&);     // std / definition
+};
+template <typename T, int F>
+auto ce_desc() -> CeDesc
+{
+    using UT        = std::make_unsigned_t<T>;
+    auto const& tab = ce_table<T, F>;
+    return CeDesc{tname<T>(), CE_NAME[F], std::is_signed_v<T>, F >= CE_FIRST_BINARY, tab.constant_evaluated, CeTab<T, F>::n, tab.val.data(), tab.dom.data(),
+        +[](std::size_t i, u64& a, u64& b) {
+            T x{}, y{};
+            ce_arg<T, F>(i, x, y);
+            a = sx(x);
+            b = sx(y);
+        },
+        +[](u64 a, u64 b) {
+            T volatile va = static_cast<T>(static_cast<UT>(a));
+            T volatile vb = static_cast<T>(static_cast<UT>(b));
+            return ce_apply<T, F>(va, vb);
+        },
+        +[](u64 a, u64 b, bool& has) { return ce_std<T, F>(static_cast<T>(static_cast<UT>(a)), static_cast<T>(static_cast<UT>(b)), has); }};
+}
+bool g_ce_filter = false;
+u64 g_ce_a = 0, g_ce_b = 0;
+void ce_check(CeDesc const& d)
+{
+    std::string const ty = std::string(d.type) + "/" + d.fname;
+    auto num             = [&](u64 v) { return d.is_signed ? std::to_string(static_cast<i64>(v)) : std::to_string(v); };
+    for (std::size_t i = 0; i < d.n; ++i) {
+        u64 a = 0, b = 0;
+        d.arg(i, a, b);
+        if (g_ce_filter && (a != g_ce_a || b != g_ce_b)) { continue; }
+        Case k{FN[F_CONSTANT_EVALUATED], ty.c_str(), a, b, d.is_signed, d.is_signed};
+        vf::Flight<Case> fl(k.fn, k);
+        auto call = [&] { return std::string("etl::") + d.fname + "(" + d.type + " " + num(a) + (d.binary ? ", " + num(b) : std::string()) + ")"; };
+        if (!d.constant_evaluated) {
+            vf::mismatch(k.fn, k, std::string("etl::") + d.fname + " for " + d.type + ": the table of results could not be constant-initialised (some in-domain call is not a constant expression)");
+            return;
+        }
+        CeRes const r = d.apply(a, b); // run-time path
+        if (r.dom != d.dom[i] || (r.dom && r.val != d.val[i])) {
+            vf::mismatch(k.fn, k, call() + " evaluated in a constant expression = " + num(d.val[i]) + ", at run time = " + num(r.val));
+            return;
+        }
+        if (r.dom) {
+            bool has      = false;
+            u64 const ref = d.ref(a, b, has);
+            if (has && ref != d.val[i]) {
+                vf::mismatch(k.fn, k, call() + " evaluated in a constant expression = " + num(d.val[i]) + ", expected " + num(ref));
+                return;
+            }
+            ++g_evals[F_CONSTANT_EVALUATED];
+            ++g_nt;
+        }
+    }
+}
+template <typename T, int... F>
+void ce_type(std::integer_sequence<int, F...>)
+{
+    (ce_check(ce_desc<T, F>()), ...);
+}
+template <typename T>
+void ce_all(vf::Ctx& c, std::uint64_t& work)
+{
+    if (!c.mine(work++)) { return; }
+    ce_type<T>(std::make_integer_sequence<int, CE_COUNT>{});
+}
+template <typename T, int... F>
+auto ce_replay_fn(std::string const& name, std::integer_sequence<int, F...>) -> bool
+{
+    bool found = false;
+    ((name == CE_NAME[F] ? (ce_check(ce_desc<T, F>()), found = true) : false), ...);
+    return found;
+}
+
 // ------------------------------------------------------------------------------------------------ part 3: random sweep
 template <typename T>
 auto gen(vf::Rng& r) -> T
@@ -1416,6 +1716,16 @@ void vf_run(vf::Ctx& c)
     ipow_tpl<i16{2}>(c, work);
     ipow_tpl<u8{2}>(c, work);
     popcount_constexpr(c, work);
+    ce_all<u8>(c, work);
+    ce_all<i8>(c, work);
+    ce_all<u16>(c, work);
+    ce_all<i16>(c, work);
+    ce_all<u32>(c, work);
+    ce_all<i32>(c, work);
+    ce_all<u64>(c, work);
+    ce_all<i64>(c, work);
+    ce_all<ull>(c, work);
+    ce_all<ll>(c, work);
 #endif
 #if C14_PART == 0 || C14_PART == 5
     pairs_with_all<i8>(c, work);
@@ -1524,6 +1834,32 @@ std::string vf_replay(std::string const& sub, std::string const& cs)
             ipow_tpl<u8{2}>(c, work);
         }
         return "";
+    }
+    if (fn == F_CONSTANT_EVALUATED) {
+#if C14_PART == 0 || C14_PART == 2
+        auto const slash = t.find('/');
+        if (slash == std::string::npos) { return "unparseable type/function in case string"; }
+        std::string const tn = t.substr(0, slash), fname = t.substr(slash + 1);
+        g_replay    = false; // a mismatch ends the process with the failing case
+        g_ce_filter = true;
+        g_ce_a      = a;
+        g_ce_b      = b;
+        auto const all = std::make_integer_sequence<int, CE_COUNT>{};
+        bool ok        = false;
+        if (tn == "u8") { ok = ce_replay_fn<u8>(fname, all); }
+        if (tn == "i8") { ok = ce_replay_fn<i8>(fname, all); }
+        if (tn == "u16") { ok = ce_replay_fn<u16>(fname, all); }
+        if (tn == "i16") { ok = ce_replay_fn<i16>(fname, all); }
+        if (tn == "u32") { ok = ce_replay_fn<u32>(fname, all); }
+        if (tn == "i32") { ok = ce_replay_fn<i32>(fname, all); }
+        if (tn == "u64") { ok = ce_replay_fn<u64>(fname, all); }
+        if (tn == "i64") { ok = ce_replay_fn<i64>(fname, all); }
+        if (tn == "ull") { ok = ce_replay_fn<ull>(fname, all); }
+        if (tn == "ll") { ok = ce_replay_fn<ll>(fname, all); }
+        return ok ? "" : "unknown type or function in case string";
+#else
+        return "constant-evaluated cases are replayed by the C14_wide harness";
+#endif
     }
     auto const comma = t.find(',');
     bool known       = false;
